@@ -200,11 +200,38 @@ structure MockFnIR where
   defaultImpl : Bool
   debugPat : List String
   debugExprs : List String
+  /-- parameter types of `type AnswerFn = dyn (for<'__u> Fn(<these>) -> Ret) + Send + Sync`: the receiver, then the parameters -/
+  answerParams : List String
+  /-- the `for<'__u>` binder is present iff the receiver is passed by reference -/
+  answerHrtb : Bool
   deriving Repr, DecidableEq
+
+/-- the parameter as the answer function receives it (the declared type; `__i`-lifetimes are for `Inputs` only) -/
+def answerParamType : PClass → String
+  | .owned => "u32"
+  | .ref => "&u32"
+  | .refRef => "&&u32"
+  | .mutRef => "&mutu32"
+  | .mutDyn => "&mutdyncore::fmt::Debug"
+  | .mutImpossible => "&mutVec<&'staticu32>"
+  | .slice => "&[u32]"
+
+/-- the receiver as the answer function receives it -/
+def answerRecvType : Recv → String
+  | .ref | .typedRef => "&'__u::unimock::Unimock"
+  | .mutRef | .pinMut | .typedMut => "&'__umut::unimock::Unimock"
+  | .owned => "::unimock::Unimock"
+  | .rc => "Rc<::unimock::Unimock>"
+  | .arc => "Arc<::unimock::Unimock>"
+
+def answerByRef : Recv → Bool
+  | .owned | .rc | .arc => false
+  | _ => true
 
 def genMockFn (s : MethodShape) : MockFnIR :=
   { path := mockFnPath s, inputs := s.params.map (inputType ·.cls), traitLit := s.traitName, methodLit := s.name,
-    defaultImpl := s.hasDefault, debugPat := s.params.map fnParam, debugExprs := s.params.map debugExpr }
+    defaultImpl := s.hasDefault, debugPat := s.params.map fnParam, debugExprs := s.params.map debugExpr,
+    answerParams := answerRecvType s.recv :: s.params.map (answerParamType ·.cls), answerHrtb := answerByRef s.recv }
 
 /-! ## rendering (same fact lines as `/verif/macroharness/src/ir.rs`) -/
 
@@ -238,7 +265,7 @@ def renderDelegator (s : MethodShape) : List String :=
 
 def renderMockFn (s : MethodShape) : List String :=
   let m := genMockFn s
-  [s!"mockfn {m.path} inputs={tupled m.inputs} path=\"{m.traitLit}\",\"{m.methodLit}\" default_impl={b2s m.defaultImpl}"] ++
+  [s!"mockfn {m.path} inputs={tupled m.inputs} answer=dyn({if m.answerHrtb then "for<'__u>" else ""}Fn({",".intercalate m.answerParams})->u32)+Send+Sync path=\"{m.traitLit}\",\"{m.methodLit}\" default_impl={b2s m.defaultImpl}"] ++
   (if s.params.isEmpty then [] else [s!"  debug pat={tupled m.debugPat} exprs={",".intercalate m.debugExprs}"])
 
 end Unimock.Codegen
